@@ -79,7 +79,8 @@ func drawDirty(r *prng.Rand) *Dirty {
 	return d
 }
 
-var readerKinds = []string{"plain", "bytereader", "errorreader", "bufio"}
+var readerKinds = []string{"plain", "bytereader", "errorreader", "bufio", "fat"}
+var writerKinds = []string{"plain", "errorwriter", "fat"}
 
 // drawSchedule draws a chunk schedule for data (spans may be nil).
 func drawSchedule(r *prng.Rand, n int, spans []refcodec.Span) *simnet.Schedule {
@@ -332,7 +333,7 @@ func runC02(c *Ctx) *Replay {
 		if i >= 3 {
 			sc.Dirty.Pad = c.R.Range(1, 33)
 		}
-		sc.Writer = []string{"plain", "errorwriter"}[c.R.Intn(2)]
+		sc.Writer = writerKinds[c.R.Intn(len(writerKinds))]
 		viol := execEncoders(c.N, &sc)
 		c.Count("evaluations", 1)
 		c.Count("fill:"+sc.Dirty.Fill, 1)
